@@ -19,6 +19,7 @@ import (
 type dirEntry struct {
 	Name    string `json:"name"`    // file name inside base
 	IsDir   bool   `json:"is_dir"`  // created as a sub-directory
+	Inside  bool   `json:"inside"`  // the sub-directory contains files named like hash files (they are no users of this store)
 	Content string `json:"content"` // supported | unknownpid | garbage | empty | otheralg
 }
 
@@ -51,7 +52,7 @@ func genDirDesc(t *rapid.T) dirDesc {
 			d.Entries = append(d.Entries, dirEntry{Name: n + ext, Content: content("c")})
 		case "subdir":
 			ext := rapid.SampledFrom([]string{".user", ".admin", "", ".d"}).Draw(t, "dext")
-			d.Entries = append(d.Entries, dirEntry{Name: n + ext, IsDir: true})
+			d.Entries = append(d.Entries, dirEntry{Name: n + ext, IsDir: true, Inside: rapid.Bool().Draw(t, "inside")})
 		}
 	}
 	// two generated names may collide on one file name (user "bob.admin" without extension vs. admin "bob"): keep the first
@@ -91,12 +92,16 @@ func materialize(t *rapid.T, root string, d dirDesc, cfg *vlib.Config) (base str
 	set := cfg.Set(cfg.Default)
 	mk := func(e dirEntry) {
 		p := filepath.Join(base, e.Name)
+		salt := make([]byte, set.SaltLen())
 		if e.IsDir {
 			os.Mkdir(p, 0o700)
+			if e.Inside {
+				os.WriteFile(filepath.Join(p, "mallory.admin"), []byte(set.Record("pw-mallory", salt, 1700000000)+"\n"), 0o600)
+				os.WriteFile(filepath.Join(p, "eve.user"), []byte(set.Record("pw-eve", salt, 1700000000)+"\n"), 0o600)
+			}
 			return
 		}
 		var c string
-		salt := make([]byte, set.SaltLen())
 		switch e.Content {
 		case "supported":
 			c = set.Record("pw-"+e.Name, salt, 1700000000) + "\n"
@@ -196,6 +201,23 @@ func TestC16CheckExact(t *testing.T) {
 		}
 		if diff := before.Diff(vlib.TakeSnap(root), true, nil); len(diff) > 0 {
 			t.Fatalf("VIOLATION C16: Check() modified the directory: %v", diff)
+		}
+		// only direct children of the base directory are users: nothing below a sub-directory is listed, exists or logs in
+		for _, e := range desc.Entries {
+			if e.IsDir && e.Inside && desc.Base == "ok" {
+				vlib.Class("sub-directory-holding-files-named-like-hash-files")
+				lf, _ := d.ListFull()
+				l, _ := d.List()
+				for _, ghost := range []string{"mallory", "eve", e.Name + "/mallory", e.Name + "/eve"} {
+					_, inFull := lf[ghost]
+					_, inList := l[ghost]
+					ex, _, _ := d.Exists(ghost)
+					ok, _, _, _, _ := d.Authenticate(ghost, "pw-"+filepath.Base(ghost))
+					if inFull || inList || ex || ok {
+						t.Fatalf("VIOLATION C03: %q, a file below the sub-directory %q of the base directory, counts as a user (list-full=%v list=%v exists=%v authenticates=%v)", ghost, e.Name, inFull, inList, ex, ok)
+					}
+				}
+			}
 		}
 		vlib.Class(fmt.Sprintf("check:valid=%v", len(reasons) == 0))
 		for _, r := range reasons {
